@@ -17,26 +17,28 @@ from . import gen, pool, stage, tlcrun
 from .common import log, scratch, Timer
 
 PARAMS = {
-    "quick": dict(nfam=420, n=4, nover=90, nrand=60, nprefix=150, rand_len=6),
-    "thorough": dict(nfam=6000, n=5, nover=1200, nrand=1500, nprefix=1500, rand_len=7),
+    "quick": dict(nfam=420, n=3, smax=6, nover=90, nrand=60, nprefix=150, rand_len=6),
+    "thorough": dict(nfam=6000, n=4, smax=8, nover=1200, nrand=1500, nprefix=1500, rand_len=8),
 }
 
 
-def _inputs_plain(g, n):
-    alpha = [t[2] for t in g["terms"]]
-    return ["".join(w) for w in gen.token_strings(alpha, n)]
+def _inputs_plain(g, p, rng):
+    """all token strings <= n, plus sentences up to smax tokens and single-edit corruptions of them"""
+    return ["".join(w) for w in gen.directed_inputs(g, rng, n_all=p["n"], maxlen=p["smax"])]
 
 
 def _jobs(tier, seed):
     p = PARAMS[tier]
     jobs = []
-    fam = gen.WITNESSES + gen.family(3, 3, limit=p["nfam"]) + gen.family(4, 2, limit=p["nfam"] // 3, rng_seed=77)
-    for g in fam:
-        jobs.append({"g": g, "inputs": _inputs_plain(g, p["n"]), "tables": ["LALR", "SLR"], "origin": "det", "variant": "plain"})
+    fam = gen.WITNESSES + gen.family(3, 3, limit=p["nfam"]) + gen.family(4, 2, limit=p["nfam"] // 3, rng_seed=77) + \
+        gen.family(5, 3, nts=("S", "A", "B"), terms=gen.PLAIN_TERMS[:2], limit=p["nfam"] // 2, rng_seed=78, sizes=(4, 5))
+    rng = random.Random(1234)
+    for i, g in enumerate(fam):
+        jobs.append({"g": g, "inputs": _inputs_plain(g, p, rng), "tables": ["LALR", "SLR"] if i % 2 == 0 else ["LALR"], "origin": "det", "variant": "plain"})
     rng = random.Random(4242)
     for g in fam[:: 3]:
         alpha = [t[2] for t in g["terms"]]
-        words = [w for w in gen.token_strings(alpha, p["n"], 1)]
+        words = [w for w in gen.token_strings(alpha, p["n"] + 1, 1)]
         pick = rng.sample(words, min(6, len(words)))
         inputs = [gen.render(w, rng.choice(gen.LAYOUTS[1:])) for w in pick] + ["  ", "\n"]
         jobs.append({"g": g, "inputs": inputs, "tables": ["LALR"], "origin": "det", "variant": "layout"})
@@ -58,8 +60,9 @@ def _jobs(tier, seed):
         jobs.append({"g": g, "inputs": inputs, "tables": ["LALR"], "origin": "det", "variant": "overlap"})
     # consume_input = False (C17), acyclic grammars only
     acyc = [g for g in fam if not gen.cyclic(g["prods"], [t[0] for t in g["terms"]])]
+    rng = random.Random(4343)
     for g in acyc[: p["nprefix"]]:
-        jobs.append({"g": g, "inputs": _inputs_plain(g, p["n"]), "tables": ["LALR"], "consume": False, "origin": "det", "variant": "prefix"})
+        jobs.append({"g": g, "inputs": _inputs_plain(g, p, rng), "tables": ["LALR"], "consume": False, "origin": "det", "variant": "prefix"})
     # seeded random extension
     rng = random.Random(1000003 * (seed + 1))
     k = 0
